@@ -96,7 +96,7 @@ def check(run: Run) -> None:
         add(s, "literal-evaluation")
     for c in gens.indent(run)[:: (3 if run.tier == "quick" else 1)]:
         add(c["src"], "indent.tla")
-    for c in gens.fmode(run)[:: (4 if run.tier == "quick" else 1)]:
+    for c in gens.fmode(run)[:: (4 if run.tier == "quick" else 3)]:
         add(c["src"], "fmode.tla")
     by_op = {}
     for i, c in enumerate(cases):
